@@ -9,8 +9,8 @@ import json, os, shutil, subprocess, sys, time
 
 prop, k = sys.argv[1], sys.argv[2]
 budget = sys.argv[3] if len(sys.argv) > 3 else "45"
-src = "/tmp/seed-out/%s/%s" % (prop, k)
-dst = "/verif/seeded/%s-%s" % (prop, k)
+src = "%s/%s/%s" % (os.environ.get("SEED_ROOT", "/tmp/seed-out"), prop, k)
+dst = "/verif/seeded/%s-%s" % (prop, os.environ.get("SEED_DST_K", k))
 wt = "/tmp/wt-seed-%s-%s" % (prop, k)
 meta = {"property": prop, "source": "independent sub-agent given only the property text", "ran": []}
 
